@@ -685,6 +685,32 @@ func (c *Ctx) checkQuoteWrap(fn *ssa.Function, cons string, cfg TraceConfig) {
 				good = first && last && body
 			}
 		}
+		// form (d): []byte(`"` + text + `"`); form (e): []byte(strconv.Quote(digits)) where the text is the output of
+		// strconv.FormatInt / FormatUint / Itoa (digits and a sign: nothing Quote would escape)
+		if !good {
+			out := t.Ret[0]
+			for out.Kind == KConv {
+				out = out.Args[0]
+			}
+			isQ := func(x *Sym) bool { v, isS := constStr(x); return isS && v == "\"" }
+			if out.Kind == KBin && out.Op == token.ADD && isQ(out.Args[1]) {
+				if l := out.Args[0]; l.Kind == KBin && l.Op == token.ADD && isQ(l.Args[0]) && !isQ(l.Args[1]) {
+					good = true
+				}
+			}
+			for _, e := range t.Events {
+				if e.Kind == EvCall && e.callName() == "strconv.Quote" && e.Res != nil && e.Res.Key() == out.Key() && len(e.Args) == 1 {
+					for _, p := range t.Events {
+						if p.Kind == EvCall && p.Res != nil && p.Res.Key() == e.Args[0].Key() {
+							switch p.callName() {
+							case "strconv.FormatInt", "strconv.FormatUint", "strconv.Itoa":
+								good = true
+							}
+						}
+					}
+				}
+			}
+		}
 		if !good && ok {
 			ok = false
 			c.violated("C20.quote-wrap", cons, fn.Pos(), fmt.Sprintf("MarshalJSON does not wrap the encoded text in exactly one quote at each end (%d appended parts): the output is not a JSON string the decoder accepts", len(parts)), c.witness(t, len(t.Events)-1)...)
